@@ -342,8 +342,16 @@ def r4_delegation(ctx):
             glue_call = t_ is not None and t_.name != '__init__' and not ctx.prog.is_anchor(t_)
         if c is None and end == 'return' and isinstance(val, ast.Call) and (glue_call or (
                 isinstance(val.func, ast.Name) and ctx.prog.resolve(fi.module, val.func.id) is None)):
-            # the class is a value taken from a registry and called through a variable: not followed
-            raise AnalysisError(f'{fi.loc}: create(\'kern\') returns `{src(val)[:60]}`: the class called is a run-time value')
+            # the class is a value taken from a registry and called through a variable: the checker's own interpreter follows the
+            # look-up for the constant 'kern' (no repository code runs)
+            from ..consteval import Instance, NotConst
+            try:
+                obj = ctx.ce.eval(ast.parse(f"{fi.cls.name}.create('kern')", mode='eval').body, fi.module, None, {})
+            except NotConst as e_:
+                raise AnalysisError(f'{fi.loc}: create(\'kern\') returns `{src(val)[:60]}`: the class called is a run-time value ({e_})')
+            if not isinstance(obj, Instance):
+                raise AnalysisError(f'{fi.loc}: create(\'kern\') evaluates to `{obj!r}`: not followed')
+            c = obj.ci
         ctx.check(c is not None and c.name == fmt_cls, 'R4', fi.loc, fi.qualname, f'factory-kern:{fmt_cls}',
                   f"create('kern') returns {fmt_cls}()")
     # public re-export
